@@ -11,6 +11,8 @@ pub mod c05;
 pub mod c07;
 pub mod c08;
 pub mod c09;
+pub mod c10;
+pub mod c11;
 pub mod c12;
 pub mod c16;
 pub mod c17;
@@ -24,6 +26,8 @@ pub fn run(cfg: &Cfg, rep: &mut Report) -> Result<(), String> {
         "c04" => diff::run_c04(cfg, rep),
         "c13" => diff::run_c13(cfg, rep),
         "c12" => c12::run(cfg, rep),
+        "c11" => c11::run(cfg, rep),
+        "c10" => c10::run(cfg, rep),
         "c09" => c09::run(cfg, rep),
         "c08" => c08::run(cfg, rep),
         "c07" => c07::run(cfg, rep),
